@@ -30,7 +30,7 @@ ENCODED = [progression.State.from_storage, progression.State.with_purpose, progr
            execution.execute_handlers_once, execution.execute_handler_once, processing.process_changing_cause,
            processing.process_resource_event, subhandling.execute]
 META = {
-    'bounds': 'L1b: 2 create handlers (+ optional 2 sub-handlers cell); per handler a symbolic stored record kind in {absent, '
+    'bounds': 'h_resume_subs: a resume handler with two sub-handlers after a restart, first outcome of each sub-handler symbolic (ok/temporary/permanent), an essential edit after 0..2 more events. L1b: 2 create handlers (+ optional 2 sub-handlers cell); per handler a symbolic stored record kind in {absent, '
               'in-progress(retries 0..2, delayed none/past/future), success, failure}; diff-base in {absent, equal, stale}; symbolic '
               'outcome per invocation in {ok, Temporary, Permanent, arbitrary}. L2: <=3 script steps (thorough <=4) from {outcome kinds, '
               'graceful restart, kill before apply, kill after apply, foreign status edit, essential edit}; T-concrete time (delay 5 s).',
